@@ -1,6 +1,7 @@
 //! Deterministic simulation with fault injection for ntex-mqtt (see /verif/DESIGN.md).
 pub mod app_v5;
 pub mod batch;
+pub mod check;
 pub mod choice;
 pub mod common;
 pub mod driver;
@@ -9,6 +10,7 @@ pub mod net;
 pub mod oracle;
 pub mod peer;
 pub mod plan;
+pub mod props;
 pub mod refcodec;
 pub mod report;
 pub mod rng;
